@@ -36,7 +36,8 @@ theorem applyOp_refines (hEq : C01.EqSpec) (o : Impl.Opts) (hl : o.limit = 0)
         simp only [Impl.applyOp]; rw [if_pos h1]; exact C01.fstOut_lift _ _
       rw [happ]
       cases hv : op.value with
-      | none => rw [C01.spec_novalue (Or.inl rfl) (by simp)]; trivial
+      | none =>
+        exact C01.novalue_refines (Or.inl rfl) (by simp) (fun hp => ⟨_, opAdd_path_none_any o r op hp⟩)
       | some c =>
         cases hens : o.ensure with
         | false => exact opAdd_refines sz acc hens hr rfl rfl hv (by simp) (hvalInv c hv) hop.toks
@@ -57,7 +58,8 @@ theorem applyOp_refines (hEq : C01.EqSpec) (o : Impl.Opts) (hl : o.limit = 0)
             simp only [Impl.applyOp]; rw [if_neg h1, if_neg h2, if_pos h3]; exact C01.fstOut_lift _ _
           rw [happ]
           cases hv : op.value with
-          | none => rw [C01.spec_novalue (Or.inr rfl) (by simp)]; trivial
+          | none =>
+            exact C01.novalue_refines (Or.inr rfl) (by simp) (fun hp => ⟨_, opReplace_path_none o r op hp⟩)
           | some c =>
             exact opReplace_refines sz acc hr rfl rfl hv (by simp) (hvalInv c hv) hop.toks
         · simp only [h3, if_false] at hkind
